@@ -178,9 +178,9 @@ pub open spec fn l2_win_after(w: Win, data: Seq<u8>, last: Option<nat>) -> Win {
 pub open spec fn l2_prefix_decodes(e: Seq<u8>, data: Seq<u8>, last: Option<nat>) -> bool {
     forall|s: Seq<u8>, m: LzS, w: Win| #[trigger] sp_lzma2(e + s, m, w) == l2_shift(e.len(), sp_lzma2(s, m, l2_win_after(w, data, last)))
 }
-/// `e` is a complete LZMA2 stream that decodes to exactly `data`
+/// `e` is a complete LZMA2 stream that decodes to exactly `data`, whatever follows it
 pub open spec fn l2_decodes_to(e: Seq<u8>, data: Seq<u8>) -> bool {
-    forall|m: LzS, w: Win| (#[trigger] sp_lzma2(e, m, w)) matches Some((k, m3, w3)) && k == e.len() && m3 == m && w3.out == w.out + data
+    forall|s: Seq<u8>, m: LzS, w: Win| (#[trigger] sp_lzma2(e + s, m, w)) matches Some((k, m3, w3)) && k == e.len() && m3 == m && w3.out == w.out + data
 }
 
 pub proof fn lemma_l2_prefix_empty()
@@ -214,10 +214,10 @@ pub proof fn lemma_l2_prefix_end(e: Seq<u8>, data: Seq<u8>, last: Option<nat>)
     requires l2_prefix_decodes(e, data, last),
     ensures l2_decodes_to(e + seq![0u8], data),
 {
-    assert forall|m: LzS, w: Win| (#[trigger] sp_lzma2(e + seq![0u8], m, w)) matches Some((k, m3, w3)) && k == (e + seq![0u8]).len() && m3 == m && w3.out == w.out + data by {
+    assert forall|s: Seq<u8>, m: LzS, w: Win| (#[trigger] sp_lzma2((e + seq![0u8]) + s, m, w)) matches Some((k, m3, w3)) && k == (e + seq![0u8]).len() && m3 == m && w3.out == w.out + data by {
         let w1 = l2_win_after(w, data, last);
-        assert(sp_lzma2(e + seq![0u8], m, w) == l2_shift(e.len(), sp_lzma2(seq![0u8], m, w1)));
-        assert(seq![0u8] + Seq::<u8>::empty() =~= seq![0u8]);
-        lemma_l2_end(Seq::<u8>::empty(), m, w1);
+        assert((e + seq![0u8]) + s =~= e + (seq![0u8] + s));
+        assert(sp_lzma2(e + (seq![0u8] + s), m, w) == l2_shift(e.len(), sp_lzma2(seq![0u8] + s, m, w1)));
+        lemma_l2_end(s, m, w1);
     }
 }
